@@ -66,11 +66,15 @@ Concat(inputs) ==
   /\ entry' = "cat"
   /\ UNCHANGED <<loc, lost, nops, mode>>
 
-(* a one-file container embedded at the end of another file *)
-Prepend ==
-  /\ entry # "" /\ ~fs[entry].prefix /\ fs[entry].wrapped
-  /\ fs' = [fs EXCEPT ![entry].prefix = TRUE]
-  /\ UNCHANGED <<loc, entry, lost, nops, mode>>
+(* a file embedded at the end of another file (arbitrary bytes in front of it): the entry point when it is a
+   container, or any file a pack is found in through its recorded location - every pack carries its header again
+   at its end, and that is where an embedded pack is looked for *)
+Prepend(p) ==
+  /\ entry # "" /\ p \in Paths /\ fs[p].kind = "file" /\ ~fs[p].prefix
+  /\ p = entry => fs[p].wrapped
+  /\ nops < MaxOps /\ nops' = nops + 1
+  /\ fs' = [fs EXCEPT ![p].prefix = TRUE]
+  /\ UNCHANGED <<loc, entry, lost, mode>>
 
 (* faults on the file of a content pack *)
 FaultTargets == {p \in Paths : fs[p].kind = "file" /\ p # entry /\ fs[p].packs \subseteq ContentPacks}
@@ -97,7 +101,7 @@ SetLocation(u, p, moveFile) ==
 
 Next == \/ \E m \in {"one", "two", "none"} : Create(m)
         \/ \E S \in SUBSET {p \in Paths : fs[p].kind = "file" /\ p # "cat"} : Concat(S)
-        \/ Prepend
+        \/ \E p \in Paths : Prepend(p)
         \/ \E p \in Paths : Remove(p) \/ ReplaceByDir(p) \/ ReplaceByOther(p)
         \/ \E u \in ContentPacks : SetLocation(u, "moved", TRUE)
 Spec == Init /\ [][Next]_vars
